@@ -162,9 +162,19 @@ func obsFrom(c cfgT, s string) (coq string, desc string) {
 }
 
 // an instant handed to the range functions: sec, nsec (0 <= nsec < 1e9)
-type tmT struct{ sec, nsec int64 }
+type tmT struct {
+	sec, nsec int64
+	loc       string // Location the time.Time carries ("" = what time.Unix gives: Local); never part of the model: the
+	// range functions are functions of the instant
+}
 
-func (t tmT) time() time.Time { return time.Unix(t.sec, t.nsec) }
+func (t tmT) time() time.Time {
+	r := time.Unix(t.sec, t.nsec)
+	if t.loc != "" {
+		r = r.In(zoneOf(t.loc))
+	}
+	return r
+}
 func (t tmT) ns() *big.Int {
 	r := new(big.Int).Mul(big.NewInt(t.sec), big.NewInt(1000000000))
 	return r.Add(r, big.NewInt(t.nsec))
@@ -176,10 +186,18 @@ func (t tmT) coq() string {
 	}
 	return n.String() + "%Z"
 }
-func (t tmT) rep() string { return fmt.Sprintf("%d:%d", t.sec, t.nsec) }
+func (t tmT) rep() string {
+	if t.loc != "" {
+		return fmt.Sprintf("%d:%d:%s", t.sec, t.nsec, t.loc)
+	}
+	return fmt.Sprintf("%d:%d", t.sec, t.nsec)
+}
 func (t tmT) desc() string {
 	if t.sec > 250000000000 || t.sec < -60000000000 {
 		return fmt.Sprintf("unix %d s + %d ns", t.sec, t.nsec)
+	}
+	if t.loc != "" {
+		return fmt.Sprintf("unix %d s + %d ns (%s) carried as a time.Time in %s: %s", t.sec, t.nsec, t.time().UTC().Format(time.RFC3339Nano), t.loc, t.time().Format("2006-01-02 15:04:05.999999999 -0700 MST"))
 	}
 	return fmt.Sprintf("unix %d s + %d ns (%s)", t.sec, t.nsec, t.time().UTC().Format(time.RFC3339Nano))
 }
@@ -190,7 +208,7 @@ func tmOfMs(ms int64, subNs int64) tmT {
 		rem += 1000
 		sec--
 	}
-	return tmT{sec, rem*1000000 + subNs}
+	return tmT{sec, rem*1000000 + subNs, ""}
 }
 func (t tmT) le(u tmT) bool { return t.sec < u.sec || (t.sec == u.sec && t.nsec <= u.nsec) }
 
@@ -389,7 +407,11 @@ func parseTm(s string) tmT {
 	p := strings.Split(s, ":")
 	a, _ := strconv.ParseInt(p[0], 10, 64)
 	b, _ := strconv.ParseInt(p[1], 10, 64)
-	return tmT{a, b}
+	t := tmT{a, b, ""}
+	if len(p) > 2 {
+		t.loc = p[2]
+	}
+	return t
 }
 func parseIds(s string) []int64 {
 	if s == "" {
